@@ -36,7 +36,11 @@ class Ctx:
         self.work = os.path.join(WORK, "%s-%s%s" % (pid, tier, suffix))
         # runs against a scratch worktree (seeded changes) must not overwrite the evidence of the real tree
         self.evid_dir = self.work if scratch else EVID
-        if pid.startswith("X") and not scratch:
+        if os.environ.get("VERIF_EVID_DIR"):
+            # extra runs (other seeds) that must not replace the committed evidence of the registered command
+            self.evid_dir = os.environ["VERIF_EVID_DIR"]
+            os.makedirs(self.evid_dir, exist_ok=True)
+        elif pid.startswith("X") and not scratch:
             # extension checks (behaviour beyond the listed properties, DESIGN section 10) keep their evidence apart
             self.evid_dir = os.path.join(VERIF, "evidence_extra")
             os.makedirs(self.evid_dir, exist_ok=True)
